@@ -46,7 +46,9 @@ def TF.step (t : Option Nat) (s : TF) (valid : Bool) : TF :=
   match t with
   | none => s
   | some tfaw =>
-    let cnt := s.count
+    -- `count = Signal(max=max(tfaw, 2))` is assigned the sum of the window bits and truncates (tfaw = 2 or 4: a full
+    -- window reads as 0)
+    let cnt := s.count % 2 ^ maxBits (max tfaw 2)
     { window := (valid :: s.window).take tfaw
       ready := if cnt < 4 then (if cnt == 3 then !valid else true) else s.ready }
 
